@@ -1,6 +1,150 @@
 /- Helper lemmas for the number-theoretic models (Mpir/Model/Numth.lean), property C16. -/
 import MpirProofs.Lemmas.Base
 import Mpir.Model.Numth
+import Mathlib.Data.Nat.Fib.Basic
+import Mathlib.Data.Nat.Factorial.Basic
+import Mathlib.Data.Nat.Factorial.DoubleFactorial
+import Mathlib.Data.Nat.Choose.Basic
+import Mathlib.Data.Nat.Prime.Basic
+import Mathlib.Data.Nat.Bitwise
+import Mathlib.Tactic.Ring
+import Mathlib.Tactic.Linarith
+import Mathlib.Tactic.LinearCombination
+import Mathlib.Tactic.IntervalCases
+import Mathlib.Tactic.NormNum
 namespace Mpir.Numth
+open Mpir Mpir.Gen.NumthTabs
+
+/-! ## The executable specs are the Mathlib functions -/
+
+theorem factorial_eq (n : ℕ) : factorial n = n.factorial := by
+  induction n with
+  | zero => rfl
+  | succ n ih => simp [factorial, ih, Nat.factorial_succ]
+
+open Nat in
+theorem doubleFactorial_eq : ∀ n : ℕ, doubleFactorial n = n‼
+  | 0 => rfl
+  | 1 => rfl
+  | n + 2 => by simp [doubleFactorial, doubleFactorial_eq n]
+
+theorem fibLoop_eq (n m : ℕ) : fibLoop n (Nat.fib m) (Nat.fib (m + 1)) = Nat.fib (n + m) := by
+  induction n generalizing m with
+  | zero => simp [fibLoop]
+  | succ n ih =>
+    have h : Nat.fib m + Nat.fib (m + 1) = Nat.fib (m + 1 + 1) := by rw [Nat.fib_add_two]
+    rw [fibLoop, h, ih (m + 1)]; congr 1; omega
+
+theorem fibSpec_eq (n : ℕ) : fibSpec n = Nat.fib n := by
+  have := fibLoop_eq n 0; simpa [fibSpec] using this
+
+theorem fibLoop_add (n a b a' b' : ℕ) : fibLoop n (a + a') (b + b') = fibLoop n a b + fibLoop n a' b' := by
+  induction n generalizing a b a' b' with
+  | zero => simp [fibLoop]
+  | succ n ih => simp only [fibLoop]; rw [← ih]; congr 1; omega
+
+/-- L(n) + F(n) = 2 F(n+1) characterises the Lucas numbers -/
+theorem lucSpec_add_fib (n : ℕ) : lucSpec n + Nat.fib n = 2 * Nat.fib (n + 1) := by
+  have h1 : fibLoop n 2 2 = lucSpec n + fibSpec n := by
+    have := fibLoop_add n 2 1 0 1; simpa [lucSpec, fibSpec] using this
+  have h2 : fibLoop n 2 2 = 2 * fibLoop n 1 1 := by
+    have := fibLoop_add n 1 1 1 1; norm_num at this; omega
+  have h3 : fibLoop n 1 1 = Nat.fib (n + 1) := by
+    have := fibLoop_eq n 1; simpa using this
+  rw [← fibSpec_eq]; omega
+
+/-! ## trial-division primality is `Nat.Prime` -/
+
+theorem noDivisorFrom_iff (n : ℕ) : ∀ fuel d, 1 ≤ d →
+    (noDivisorFrom n fuel d = true ↔ ∀ m, d ≤ m → m < d + fuel → m * m ≤ n → ¬ m ∣ n) := by
+  intro fuel
+  induction fuel with
+  | zero => intro d _; simp [noDivisorFrom]; intro m h1 h2; omega
+  | succ fuel ih =>
+    intro d hd
+    rw [noDivisorFrom]
+    by_cases h1 : d * d > n
+    · simp only [h1, if_true, true_iff]
+      intro m hm _ hmm
+      have : d * d ≤ m * m := Nat.mul_le_mul hm hm
+      omega
+    · simp only [h1, if_false]
+      by_cases h2 : n % d = 0
+      · simp only [beq_iff_eq, h2, if_true]
+        constructor
+        · intro h; cases h
+        · intro h; exact absurd (Nat.dvd_of_mod_eq_zero h2) (h d le_rfl (by omega) (by omega))
+      · simp only [beq_iff_eq, h2, if_false]
+        rw [ih (d + 1) (by omega)]
+        constructor
+        · intro h m hm hlt hmm
+          rcases Nat.eq_or_lt_of_le hm with rfl | hgt
+          · intro hdv; exact h2 (Nat.mod_eq_zero_of_dvd hdv)
+          · exact h m hgt (by omega) hmm
+        · intro h m hm hlt hmm; exact h m (by omega) (by omega) hmm
+
+theorem isPrimeTD_iff (n : ℕ) : isPrimeTD n = true ↔ n.Prime := by
+  unfold isPrimeTD
+  rw [Bool.and_eq_true, decide_eq_true_eq, noDivisorFrom_iff n n 2 (by omega), Nat.prime_def_le_sqrt]
+  constructor
+  · rintro ⟨h2, h⟩
+    refine ⟨h2, fun m hm hs => h m hm ?_ (Nat.le_sqrt.mp hs)⟩
+    have := Nat.le_sqrt.mp hs
+    nlinarith
+  · rintro ⟨h2, h⟩
+    exact ⟨h2, fun m hm _ hmm => h m hm (Nat.le_sqrt.mpr hmm)⟩
+
+/-! ## odd part -/
+
+/-- odd part of a natural number, computed by halving (0 for 0) -/
+def oddPartAux : ℕ → ℕ → ℕ
+  | 0, m => m
+  | fuel + 1, m => if m % 2 = 0 ∧ m ≠ 0 then oddPartAux fuel (m / 2) else m
+def oddPart (m : ℕ) : ℕ := oddPartAux m m
+
+theorem oddPartAux_spec : ∀ fuel m, m ≠ 0 → m < 2 ^ fuel →
+    oddPartAux fuel m % 2 = 1 ∧ ∃ t, m = 2 ^ t * oddPartAux fuel m := by
+  intro fuel
+  induction fuel with
+  | zero => intro m h0 h; simp at h; omega
+  | succ fuel ih =>
+    intro m h0 hlt
+    rw [oddPartAux]
+    by_cases h : m % 2 = 0 ∧ m ≠ 0
+    · rw [if_pos h]
+      have hm2 : m / 2 ≠ 0 := by omega
+      have hlt2 : m / 2 < 2 ^ fuel := by rw [pow_succ] at hlt; omega
+      obtain ⟨ho, t, ht⟩ := ih (m / 2) hm2 hlt2
+      refine ⟨ho, t + 1, ?_⟩
+      generalize oddPartAux fuel (m / 2) = X at *
+      have hm : m = 2 * (m / 2) := by omega
+      rw [hm, ht, pow_succ]; ring
+    · rw [if_neg h]
+      exact ⟨by omega, 0, by simp⟩
+
+/-- `oddPart m` is odd and `m = 2^t * oddPart m` for some t: this determines it -/
+theorem oddPart_spec (m : ℕ) (h : m ≠ 0) : oddPart m % 2 = 1 ∧ ∃ t, m = 2 ^ t * oddPart m :=
+  oddPartAux_spec m m h (Nat.lt_two_pow_self)
+
+theorem odd_part_unique {a b s t : ℕ} (ha : a % 2 = 1) (hb : b % 2 = 1) (h : 2 ^ s * a = 2 ^ t * b) : s = t ∧ a = b := by
+  induction s generalizing t with
+  | zero =>
+    cases t with
+    | zero => simpa using h
+    | succ t =>
+      exfalso; simp only [pow_zero, one_mul, pow_succ] at h
+      have : a = 2 * (2 ^ t * b) := by rw [h]; ring
+      omega
+  | succ s ih =>
+    cases t with
+    | zero =>
+      exfalso; simp only [pow_zero, one_mul, pow_succ] at h
+      have : b = 2 * (2 ^ s * a) := by rw [← h]; ring
+      omega
+    | succ t =>
+      have : 2 ^ s * a = 2 ^ t * b := by
+        simp only [pow_succ] at h; nlinarith
+      obtain ⟨h1, h2⟩ := ih this
+      exact ⟨by omega, h2⟩
 
 end Mpir.Numth
